@@ -31,7 +31,6 @@ regression of a fix re-opens the obligation (and the three former witnesses are 
 first on every run as corpus cases).
 -/
 import BHS.Gen.HookSql
-import BHS.Gen.HookCounter
 import BHS.Model.Hooks
 import BHS.Proofs.Hooks
 import BHS.Proofs.HooksSpec
@@ -384,23 +383,12 @@ example :
   decide
 
 /-! ### tie to the source by translation
-`Gen.hookCounter` is TRANSLATED from `updateWebhookAfterNotification` (notification/webhooks.go) on every run
-(harness/cmd/extract/gen_hookcounter.go); the hand-written `updateAfter` is proved equal to it on the two fields the
-property is about, so an edit of the Go bookkeeping re-opens this obligation. -/
-
-theorem C12_counter_translated (w : Hook) (sCode : Nat) (st : Status) (now : Nat) :
-    Gen.hookCounter (w.errors : Int) w.active (w.maxTries : Int) (sCode : Int)
-      = (((updateAfter w sCode st now).errors : Int), (updateAfter w sCode st now).active) := by
-  unfold Gen.hookCounter updateAfter
-  simp only [Id.run, pure]
-  by_cases h : sCode = 200
-  · subst h; simp
-  · have h' : (sCode : Int) ≠ 200 := by omega
-    simp only [ne_eq, h, h', not_false_eq_true, if_true]
-    by_cases hm : w.errors + 1 ≥ w.maxTries
-    · have hm' : (w.errors : Int) + 1 ≥ (w.maxTries : Int) := by omega
-      simp [hm, hm']
-    · have hm' : ¬ ((w.errors : Int) + 1 ≥ (w.maxTries : Int)) := by omega
-      simp [hm, hm']
+The webhook code itself — `updateWebhookAfterNotification` with its counter and deactivation, `Webhook.Notify`, the service,
+the repository, the DTO mapping and the SQL-layer methods — is TRANSLATED from the Go source on every run
+(harness/cmd/extract/gen_hooksvc.go → `BHS.Gen.HookSvc`) and proved equal to the hand model used above, for every input,
+in BHS/Props/HookSvcGen.lean (`updateWebhookAfterNotification_refines` … `Gen_step_refines`, `Gen_run_refines`); the
+headline theorems of this file are re-stated over the generated definitions in BHS/Props/HookSvcGenC12.lean.
+(This replaces the former `C12_counter_translated` over `Gen.HookCounter`, which covered only the two counter fields and
+was not robust against harmless rewrites of the Go text.) -/
 
 end BHS.Props.C12
